@@ -1,1 +1,127 @@
-import Model.Template
+import Model.Digits
+import Mathlib.Tactic
+/-! Helper lemmas about zero-padded decimal formatting / parsing. -/
+namespace Digits
+
+theorem digit_facts : ∀ d, d < 10 → isDigit (digitChar d) = true ∧ digitVal (digitChar d) = d := by
+  decide
+
+theorem digitChar_mod (n : Nat) : digitChar (n % 10) = digitChar n := by
+  unfold digitChar; rw [Nat.mod_mod]
+
+theorem isDigit_digitChar (n : Nat) : isDigit (digitChar n) = true := by
+  rw [← digitChar_mod]; exact (digit_facts _ (Nat.mod_lt _ (by omega))).1
+
+theorem digitVal_digitChar (n : Nat) : digitVal (digitChar n) = n % 10 := by
+  rw [← digitChar_mod]; exact (digit_facts _ (Nat.mod_lt _ (by omega))).2
+
+theorem padW_length (w n : Nat) : (padW w n).length = w := by
+  induction w generalizing n with
+  | zero => rfl
+  | succ w ih => simp [padW, ih]
+
+theorem padW_all_digits (w n : Nat) : (padW w n).all isDigit = true := by
+  induction w generalizing n with
+  | zero => rfl
+  | succ w ih => simp [padW, ih, isDigit_digitChar]
+
+theorem padW_mem_digit (w n : Nat) : ∀ c ∈ padW w n, isDigit c = true := by
+  have := padW_all_digits w n
+  simpa [List.all_eq_true] using this
+
+def val (s : List Char) : Nat := s.foldl (fun a c => 10 * a + digitVal c) 0
+
+theorem val_padW (w n : Nat) : val (padW w n) = n % 10 ^ w := by
+  induction w generalizing n with
+  | zero => simp [padW, val, Nat.mod_one]
+  | succ w ih =>
+    have h := ih (n / 10)
+    unfold val at h ⊢
+    simp only [padW, List.foldl_append, List.foldl_cons, List.foldl_nil, h, digitVal_digitChar]
+    have : n % 10 ^ (w + 1) = 10 * (n / 10 % 10 ^ w) + n % 10 := by
+      rw [pow_succ, mul_comm, Nat.mod_mul, Nat.add_comm]
+    omega
+
+theorem parseNat_padW (w n : Nat) (hw : 0 < w) : parseNat (padW w n) = some (n % 10 ^ w) := by
+  unfold parseNat
+  have h1 : (padW w n).isEmpty = false := by
+    cases w with
+    | zero => omega
+    | succ w => simp [padW]
+  rw [h1, padW_all_digits]
+  simp only [Bool.not_true, Bool.or_self, Bool.false_eq_true, ↓reduceIte]
+  exact congrArg some (val_padW w n)
+
+theorem lt_pow_numDigits (n : Nat) : n < 10 ^ numDigits n := by
+  induction n using Nat.strong_induction_on with
+  | _ n ih =>
+    rw [numDigits]
+    split
+    · simpa using ‹n < 10›
+    · have := ih (n / 10) (by omega)
+      rw [Nat.add_comm, pow_succ]; omega
+
+theorem numDigits_pos (n : Nat) : 0 < numDigits n := by
+  rw [numDigits]; split <;> omega
+
+theorem numDigits_le (w n : Nat) (hw : 0 < w) (h : n < 10 ^ w) : numDigits n ≤ w := by
+  induction w generalizing n with
+  | zero => omega
+  | succ w ih =>
+    rw [numDigits]
+    split
+    · omega
+    · have hw' : 0 < w := by
+        rcases Nat.eq_zero_or_pos w with h0 | h0
+        · subst h0; simp at h; omega
+        · exact h0
+      have := ih (n / 10) hw' (by rw [pow_succ] at h; omega)
+      omega
+
+/-- `pad w n` is exactly the `w` last digits when `n` fits -/
+theorem pad_of_lt (w n : Nat) (hw : 0 < w) (h : n < 10 ^ w) : pad w n = padW w n := by
+  unfold pad
+  rw [Nat.max_eq_left (numDigits_le w n hw h)]
+
+theorem parseNat_pad (w n : Nat) : parseNat (pad w n) = some n := by
+  unfold pad
+  rw [parseNat_padW _ _ (by have := numDigits_pos n; omega)]
+  congr 1
+  apply Nat.mod_eq_of_lt
+  calc n < 10 ^ numDigits n := lt_pow_numDigits n
+    _ ≤ 10 ^ max w (numDigits n) := Nat.pow_le_pow_right (by omega) (by omega)
+
+theorem pad_length (w n : Nat) (hw : 0 < w) (h : n < 10 ^ w) : (pad w n).length = w := by
+  rw [pad_of_lt w n hw h, padW_length]
+
+theorem pad_all_digits (w n : Nat) : (pad w n).all isDigit = true := padW_all_digits _ _
+
+theorem numDigits_four (y : Nat) (h1 : 1000 ≤ y) (h2 : y ≤ 9999) : numDigits y = 4 := by
+  rw [numDigits, dif_neg (by omega), numDigits, dif_neg (by omega), numDigits, dif_neg (by omega),
+    numDigits, dif_pos (by omega)]
+
+theorem natDigits_year (y : Nat) (h1 : 1000 ≤ y) (h2 : y ≤ 9999) : natDigits y = padW 4 y := by
+  unfold natDigits pad
+  rw [numDigits_four y h1 h2]; rfl
+
+theorem padW_add (a b n : Nat) : padW (a + b) n = padW a (n / 10 ^ b) ++ padW b n := by
+  induction b generalizing n with
+  | zero => simp [padW]
+  | succ b ih =>
+    rw [← Nat.add_assoc]
+    simp only [padW, ih, List.append_assoc]
+    rw [Nat.div_div_eq_div_mul, pow_succ, Nat.mul_comm]
+
+theorem lastTwo_year (y : Nat) (h1 : 1000 ≤ y) (h2 : y ≤ 9999) :
+    lastTwo (natDigits y) = padW 2 y := by
+  rw [natDigits_year y h1 h2, show (4 : Nat) = 2 + 2 from rfl, padW_add]
+  unfold lastTwo
+  simp [padW_length]
+
+theorem parseNat_lastTwo_year (y : Nat) (h1 : 1000 ≤ y) (h2 : y ≤ 9999) :
+    parseNat (lastTwo (natDigits y)) = some (y % 100) := by
+  rw [lastTwo_year y h1 h2, parseNat_padW _ _ (by omega)]; rfl
+
+theorem parseNat_natDigits (n : Nat) : parseNat (natDigits n) = some n := parseNat_pad 1 n
+
+end Digits
